@@ -57,8 +57,23 @@ for tgt, pat in ((det4, '/tmp/mx/r4-*.txt'), (old4, '/tmp/mx/old4-*.txt')):
                 if '=' in kv:
                     c, rc = kv.split('=')
                     d[c] = int(rc)
+# round 5: r5-*.txt = checks as they were when the round came in; r5x-* / r5y-* = related checks and re-runs after strengthening
+det5, first5 = {}, {}
+for tgt, pats in ((first5, ['/tmp/mx/r5-*.txt']), (det5, ['/tmp/mx/r5-*.txt', '/tmp/mx/r5x-*.txt', '/tmp/mx/r5y-*.txt'])):
+    for pat in pats:
+        for f in sorted(glob.glob(pat)):
+            for line in open(f):
+                parts = line.split()
+                if not parts or '/' not in parts[0]:
+                    continue
+                key = parts[0].replace('/m', '-w')
+                d = tgt.setdefault(key, {})
+                for kv in parts[1:]:
+                    if '=' in kv:
+                        c, rc = kv.split('=')
+                        d[c] = max(int(rc), d.get(c, 0)) if tgt is det5 else int(rc)
 n = 0
-for d in sorted(glob.glob('/tmp/seed/out/C*/m*/')) + sorted(glob.glob('/tmp/seed/out2/C*/m*/')) + sorted(glob.glob('/tmp/seed/out3/C*/m*/')) + sorted(glob.glob('/tmp/seed/out4/C*/m*/')):
+for d in sorted(glob.glob('/tmp/seed/out/C*/m*/')) + sorted(glob.glob('/tmp/seed/out2/C*/m*/')) + sorted(glob.glob('/tmp/seed/out3/C*/m*/')) + sorted(glob.glob('/tmp/seed/out4/C*/m*/')) + sorted(glob.glob('/tmp/seed/out5/C*/m*/')):
     pid, k = d.rstrip('/').split('/')[-2:]
     round2 = '/out2/' in d
     round3 = '/out3/' in d
@@ -69,6 +84,9 @@ for d in sorted(glob.glob('/tmp/seed/out/C*/m*/')) + sorted(glob.glob('/tmp/seed
     round4 = '/out4/' in d
     if round4:
         k = k.replace('m', 'v')
+    round5 = '/out5/' in d
+    if round5:
+        k = k.replace('m', 'w')
     conf = os.path.join(d, 'confirm.json')
     if not os.path.exists(conf):
         continue
@@ -85,14 +103,14 @@ for d in sorted(glob.glob('/tmp/seed/out/C*/m*/')) + sorted(glob.glob('/tmp/seed
         am = json.load(open(os.path.join(d, 'meta.json')))
     except Exception:
         am = {}
-    checks = det2.get(sid, {}) if round2 else (det3.get(sid, {}) if round3 else (det4.get(sid, {}) if round4 else det.get(sid, {})))
+    checks = det2.get(sid, {}) if round2 else (det3.get(sid, {}) if round3 else (det4.get(sid, {}) if round4 else (det5.get(sid, {}) if round5 else det.get(sid, {}))))
     meta = {
         "id": sid,
         "property": pid,
         "summary": am.get("summary", ""),
         "needs_to_manifest": am.get("needs_to_manifest", ""),
         "clause_violated": am.get("clause_violated", ""),
-        "round": 2 if round2 else (3 if round3 else (4 if round4 else 1)),
+        "round": 2 if round2 else (3 if round3 else (4 if round4 else (5 if round5 else 1))),
         "kind": am.get("kind"),
         "minimal_trigger_size": am.get("minimal_trigger_size"),
         "origin": "written by a fresh sub-agent that saw only the property text and a scratch worktree of /repo (nothing from /verif)" + ("; round 2: asked for changes that cannot manifest on inputs with <=3 nodes, <=2 hyperedges, interfaces <=2, <=3 steps" if round2 else ""),
@@ -122,6 +140,9 @@ for d in sorted(glob.glob('/tmp/seed/out/C*/m*/')) + sorted(glob.glob('/tmp/seed
     if round4:
         meta["origin"] += "; round 4: asked for changes that depend on label/data values (V1), on aliasing or repetition of arguments (V2), on degenerate combinations (V3), or on the order in which results are listed (V4)"
         meta["detected_by_own_check_of_revision_dc1b757"] = old4.get(sid, {}).get(pid) == 1
+    if round5:
+        meta["origin"] += "; round 5: asked for changes that need something wide but not big (W1), a label or element type other than a small integer (W2), exactly one of several equivalent entry points (W3), or an input that is itself the output of another library operation (W4)"
+        meta["detected_by_own_check_when_the_round_came_in"] = first5.get(sid, {}).get(pid) == 1
     json.dump(meta, open(os.path.join(out, 'meta.json'), 'w'), indent=1)
     n += 1
 print("kept", n)
